@@ -59,6 +59,9 @@ T = {
  "C11": ("trace validation: TLA+ action FilterFree evaluated by TLC on every recorded call of a robot with shape together with the same call on its underlying stack",
          "Each event holds the underlying stack's answers, the collision verdict of each and the wrapper's answers; TLC demands exact equality with the ordered non-colliding sub-sequence; forward, link poses, limits, singularity and positioned meshes are compared with the independently built Tool(Base(OPW+limits)) model.",
          "collides() itself is judged by C10; environments are random boxes, geometry irb2400.", "4/C11"),
+ "C19": ("TLC-enumerated variant lattice of the documented YAML format with expected meaning (ParamFiles, Gen_Yaml) rendered and parsed + to_yaml round trips + malformed/fuzzed files",
+         "Printer token classes, documented token classes and reader obligations are a TLA+ model (PrinterCovered); all 2160 syntactic variants are rendered and must parse to the expected geometry, offsets, signs and dof; the library's own output must read back; structurally broken and fuzzed files must yield Err, never a panic.",
+         "Concrete numbers inside each variant are seeded random; offsets compared to the printed precision.", "4/C19"),
 }
 
 REASON_TODO = "check not built yet in this round (planned, see DESIGN.md section 9); not claimed until it runs"
